@@ -86,7 +86,7 @@ class Int(Param):
         return 'int %s..%s' % ('-inf' if self.lo is None else self.lo, '+inf' if self.hi is None else self.hi)
 
     def domain(self):
-        if self.lo is not None and self.hi is not None and self.hi - self.lo < 64:
+        if self.lo is not None and self.hi is not None and self.hi - self.lo < 256:
             return list(range(self.lo, self.hi + 1))
         return None
 
@@ -130,7 +130,7 @@ class OptInt(Param):
         return 'None | int %s..%s' % ('-inf' if self.lo is None else self.lo, '+inf' if self.hi is None else self.hi)
 
     def domain(self):
-        if self.lo is not None and self.hi is not None and self.hi - self.lo < 64:
+        if self.lo is not None and self.hi is not None and self.hi - self.lo < 256:
             return [None] + list(range(self.lo, self.hi + 1))
         return None
 
